@@ -88,6 +88,46 @@ def leg_illegal(res, spec):
         node.close()
 
 
+def leg_ragged_left_join(res, spec):
+    """LEFT JOIN against a RAGGED join table with repeated keys (the widest record anywhere: first of its key, a later record of a key, the only record),
+    with input records that have no partner: the all-None join record is as wide as the widest join record, in b.*, * and bNF - the Python engine on the same
+    query text is the reference."""
+    from ..js import bridge
+    from ..monitors import boundary
+    ns = env.import_rbql()
+    node = bridge.Node.start()
+    if node is None:
+        return
+    rng = random.Random(spec['seed'] * 7 + 5)
+    try:
+        reqs, metas = [], []
+        for n in range(150):
+            keys = ['k1', 'k2', 'k3'][:rng.randrange(1, 4)]
+            B = []
+            for _ in range(rng.randrange(1, 7)):
+                w = rng.randrange(1, 5)
+                B.append([rng.choice(keys)] + ['v%d' % j for j in range(w - 1)])
+            if n % 3 == 0:
+                B.append([B[0][0]] + ['wide%d' % j for j in range(4)])          # the widest record repeats a key seen before
+            A = [[rng.choice(keys + ['zz', 'zz']), 'a%d' % r] for r in range(rng.randrange(1, 5))]
+            q = ['select a1, b.* left join b on a1 == b1', 'select * left join b on a1 == b1', 'select a1, bNF, bNR left join b on a1 == b1', 'select a2, b.* left join b on b1 == a1 where b1 === null || b1 == "k1"',
+                 'select b.*, a1 left outer join b on a1 == b1'][n % 5]
+            reqs.append({'query': q, 'input': [list(r) for r in A], 'join': [list(r) for r in B], 'input_cols': None, 'join_cols': None})
+            metas.append((q, A, B))
+        outs = node.call({'op': 'query_batch', 'cases': reqs})['results']
+        for (q, A, B), o in zip(metas, outs):
+            py = boundary.run_query_table(ns, q.replace('b1 === null || b1 == "k1"', 'b1 is None or b1 == "k1"'), [list(r) for r in A], [list(r) for r in B])
+            res.evaluations += 1
+            res.count('ragged_left_join_runs')
+            res.nontrivial('ragged-left-join', q, repr(A), repr(B))
+            jerr = common.js_error_class(o['error']) if o['error'] else None
+            if jerr != py['error'] or (jerr is None and o['out'] != py['rows']):
+                res.violation('js:ragged-left-join-differs-from-python', '[js] %s over A=%r B=%r -> %r (error %r) ; the Python engine -> %r (error %r)' % (q, A, B, o['out'], o['error'], py['rows'], py['error_msg']),
+                              {'leg': 'ragged-left-join', 'query_text': q, 'A': A, 'B': B, 'engine': 'js'})
+    finally:
+        node.close()
+
+
 def plan(tier, seed):
     k = NSHARDS[tier]
     return [{'k': k, 'i': i, 'n': CASES[tier] // k} for i in range(k)] + [{'kind': 'illegal'}]
@@ -95,6 +135,7 @@ def plan(tier, seed):
 
 def run_shard(spec, res):
     if spec.get('kind') == 'illegal':
+        leg_ragged_left_join(res, spec)
         return leg_illegal(res, spec)
     env.import_rbql()
     rng = random.Random(spec['seed'] * 122949829 + spec['i'])
@@ -133,7 +174,7 @@ def summarize(tier, seed, m):
     shapes = sorted(k[6:] for k in m['counters'] if k.startswith('shape:'))
     return {
         'rule': 'the generators of C01 (select / where / stars / EXCEPT / UNNEST / joins), C02 (ORDER BY / DISTINCT / DISTINCT COUNT / TOP / LIMIT), C03 (aggregates, neutral arguments), C04 (joins x downstream shapes), C05 (UPDATE) and C07 (header naming with user functions) restricted to the language-neutral expression vocabulary and rendered into JS syntax; every case executed by the node driver on the working tree with deep JSON snapshots, row identity and a scribble test of the input and join arrays; compared with the reference (rows by value and order, header, error class and record number). an illegal-combinations leg: 39 clause combinations and malformed texts the reference semantics reject (DISTINCT / DISTINCT COUNT / ORDER BY with aggregates, UPDATE with ORDER BY / GROUP BY, two UNNESTs, assignment in WHERE, non-equality and OR join conditions, dangling keywords, repeated clauses, unknown modifiers), lower- and upper-case, must fail on the JS engine with the class the Python engine reports; distinct_nontrivial = distinct (JS query, tables) with a non-empty reference result or a predicted error.',
-        'required': ['js_cases', 'predicted_errors', 'cases_with_header_modifier', 'illegal_query_runs'] + ['family:%d' % k for k in range(6)],
+        'required': ['ragged_left_join_runs', 'js_cases', 'predicted_errors', 'cases_with_header_modifier', 'illegal_query_runs'] + ['family:%d' % k for k in range(6)],
         'extra': {'shapes_seen': shapes},
         'assumptions': ['rv/model/refsem.py; anything where the host languages legitimately differ (null stringification, string <-> number coercion, integer division, negative modulo, non-BMP ordering) is outside the vocabulary'],
     }
